@@ -20,6 +20,12 @@ fn check_elem<V: AnyValue>(h: &V, esz: usize, at: usize, tid: TypeId) {
     kani::assert(b.len() == esz && off(b.as_ptr()) == Some(at), "handle's byte view is exactly the element's bytes");
 }
 
+fn check_elem_mut<V: AnyValueMut>(h: &mut V, esz: usize, at: usize) {
+    kani::assert(off(h.as_bytes_mut_ptr() as *const u8) == Some(at), "mutable handle addresses the same element");
+    let bm = h.as_bytes_mut();
+    kani::assert(bm.len() == esz && off(bm.as_ptr()) == Some(at), "mutable byte view is exactly the element's bytes");
+}
+
 /// get / get_mut over every usize index
 fn get_h<T: 'static>() {
     ghost_init();
@@ -53,8 +59,9 @@ fn get_h<T: 'static>() {
         let e = v.at(i);
         check_elem(&*e, esz, base(0) + i * esz, tid);
         drop(e);
-        let e = v.at_mut(i);
+        let mut e = v.at_mut(i);
         check_elem(&*e, esz, base(0) + i * esz, tid);
+        check_elem_mut(&mut *e, esz, base(0) + i * esz);
     }
     kani::assert(g().total_destroyed == 0 && g().n_moves == 0 && g().n_clone_calls == 0, "element references own nothing: no destructor, move or clone");
     kani::cover!(i == len && len > 0, "COV index == len");
@@ -148,6 +155,17 @@ fn iter_h<T: 'static>(mutable: bool) {
         kani::assert(it.size_hint().0 == it.end - it.index, "size_hint follows the cursors");
     }}}
     if mutable { body!(v.iter_mut()) } else { body!(v.iter()) }
+    if mutable && i < e {
+        // the mutable view of an `iter_mut` item is that same element
+        let mut it = v.iter_mut();
+        it.index = i;
+        it.end = e;
+        let r = if back { it.next_back() } else { it.next() };
+        if let Some(mut item) = r {
+            let pos = if back { e - 1 } else { i };
+            check_elem_mut(&mut *item, esz, base(0) + pos * esz);
+        }
+    }
     kani::assert(g().total_destroyed == 0 && g().n_moves == 0 && g().n_clone_calls == 0, "iterating by reference owns nothing");
     kani::cover!(i < e && e < len && i > 0, "COV inner sub-range");
     kani::cover!(i == e, "COV exhausted");
@@ -184,8 +202,9 @@ fn range_iter_h<T: 'static>(typed: bool, splice: bool) {
         } else {
             let pos = if back { e - 1 } else { i };
             kani::assert(if back { ni == i && ne == e - 1 } else { ni == i + 1 && ne == e }, "exactly one cursor moves by one");
-            let item = r.unwrap();
+            let mut item = r.unwrap();
             check_elem(&item, esz, base(0) + pos * esz, tid);
+            check_elem_mut(&mut item, esz, base(0) + pos * esz);
             kani::assert(g().total_destroyed == 0, "yielding destroys nothing");
             drop(item);
             kani::assert(g().total_destroyed == 1 && g().last_drop_at == base(0) + pos * esz && g().last_drop_n == 1,
